@@ -196,7 +196,24 @@ def run_check(prop: str, tier: str, seed: int) -> int:
     if not common.DRIVER.exists():
         raise Infra("driver did not build: " + "; ".join(lean["failures"])[:400])
     # 3. corpus + correspondence
-    mod.run(rep)
+    try:
+        mod.run(rep)
+    except Infra:
+        raise
+    except Exception as e:  # noqa: BLE001
+        # An exception that escaped the property module.  If it was raised INSIDE the code under test (a frame of the
+        # torcheval tree) on an input the harness considered valid, the correspondence is broken — not the checker:
+        # record it and let the search look for a failing input.  An exception without such a frame is a checker bug.
+        import traceback
+        tb = traceback.extract_tb(e.__traceback__)
+        in_repo = [f for f in tb if str(common.REPO) in f.filename]
+        if not in_repo:
+            raise
+        where = f"{in_repo[-1].filename.replace(str(common.REPO) + '/', '')}:{in_repo[-1].lineno} in {in_repo[-1].name}"
+        rep.broke("correspondence:real-code-raised-on-harness-input",
+                  f"{type(e).__name__}: {str(e)[:200]} raised at {where} while the check was feeding an input it considers valid",
+                  {"exception": type(e).__name__, "message": str(e)[:300], "where": where,
+                   "harness_frame": next((f"{f.filename.split('/verif/')[-1]}:{f.lineno}" for f in reversed(tb) if '/harness/' in f.filename), None)})
     # 4. something broke → search for a concrete failing input on the real code
     if (lean["failures"] or rep.broken) and not rep.violations and hasattr(mod, "search"):
         mod.search(rep)
